@@ -246,6 +246,8 @@ func init() {
 		m := strings.Join(h.rn.Call("sc_open", c.A["keys"], c.A["signers"], c.A["resolver"], hx(input)), " ")
 		if strings.Contains(m, "Unmodelled") {
 			h.res.Unmodelled++
+		} else if decodeOrderOnly(m, got) {
+			h.res.Unmodelled++
 		} else if m != got {
 			fs = append(fs, Failure{Kind: "correspondence", Key: "sc-open-stream", Desc: fmt.Sprintf("model %.300s | impl %.300s", m, got)})
 		}
